@@ -1,6 +1,6 @@
 use std::convert::TryFrom;
 
-use rusty_linter::core::qualifier_of_variant;
+use rusty_linter::core::{CastVariant, qualifier_of_variant};
 use rusty_parser::{FileHandle, TypeQualifier};
 use rusty_variant::Variant;
 
@@ -48,8 +48,8 @@ fn do_input_one_var<S: InterpreterTrait>(
     let new_value: Variant = match q {
         TypeQualifier::BangSingle => Variant::from(parse_single_input(raw_input)?),
         TypeQualifier::DollarString => Variant::from(raw_input),
-        TypeQualifier::PercentInteger => Variant::from(parse_int_input(raw_input)?),
-        _ => todo!("INPUT type {} not supported yet", q),
+        // the other numeric types are read as a DOUBLE and converted like an assignment would
+        _ => Variant::from(parse_double_input(raw_input)?).cast(q)?,
     };
     interpreter.context_mut()[index] = new_value;
     Ok(())
@@ -85,12 +85,12 @@ fn parse_single_input(s: String) -> Result<f32, RuntimeError> {
     }
 }
 
-fn parse_int_input(s: String) -> Result<i32, RuntimeError> {
+fn parse_double_input(s: String) -> Result<f64, RuntimeError> {
     if s.is_empty() {
-        Ok(0)
+        Ok(0.0)
     } else {
-        s.parse::<i32>()
-            .map_err(|e| RuntimeError::Other(format!("Could not parse {} as int: {}", s, e)))
+        s.parse::<f64>()
+            .map_err(|e| RuntimeError::Other(format!("Could not parse {} as number: {}", s, e)))
     }
 }
 
